@@ -281,7 +281,11 @@ def gen_dur(repo):
                 bad(n, "call of _duration_to_nb_windows in split()")
             if n.targets[0].id in calls:
                 bad(n, "window count %s derived twice" % n.targets[0].id)
-            calls[n.targets[0].id] = (ast.unparse(a[0]), ast.unparse(a[1]), ast.unparse(a[2]), ast.unparse(a[3]).replace(eps, "_EPSILON"))
+            rf = ast.unparse(a[2])
+            rf_last = rf.split(".")[-1].lstrip("_")
+            if rf_last in ("floor", "ceil"):
+                rf = "math." + rf_last          # math.floor, _math.floor, floor, _floor: the same function under another spelling
+            calls[n.targets[0].id] = (ast.unparse(a[0]), ast.unparse(a[1]), rf, ast.unparse(a[3]).replace(eps, "_EPSILON"))
     out.append("Definition split_calls : list (string * (string * string * string * string)) := [")
     rows = ['  ("%s", ("%s", "%s", "%s", "%s"))' % ((k,) + v) for k, v in sorted(calls.items())]
     out.append(";\n".join(rows))
@@ -604,7 +608,7 @@ def slice_split(core, reader_input):
         if isinstance(test, ast.UnaryOp) and isinstance(test.op, ast.Not):
             neg, test = True, test.operand
         if isinstance(test, ast.Call) and isinstance(test.func, ast.Name) and test.func.id == "isinstance" and len(test.args) == 2 \
-                and isinstance(test.args[0], ast.Name) and test.args[0].id == "input" and isinstance(test.args[1], ast.Name) and test.args[1].id == "AudioReader":
+                and isinstance(test.args[0], ast.Name) and test.args[0].id == "input" and ast.unparse(test.args[1]).split(".")[-1] == "AudioReader":
             return -1 if neg else 1
         return 0
 
@@ -1403,7 +1407,7 @@ class LoadPure(Pure):
     def block(self, stmts, env, k):
         st = stmts[0] if stmts else None
         if isinstance(st, ast.Assign) and len(st.targets) == 1 and isinstance(st.targets[0], ast.Name) and isinstance(st.value, ast.Call) \
-                and isinstance(st.value.func, ast.Name) and st.value.func.id == "get_audio_source":
+                and ast.unparse(st.value.func).split(".")[-1] == "get_audio_source":
             env = dict(env); env[st.targets[0].id] = V("", "src"); env["#s"] = V("init_b", "bstate")
             return self.block(stmts[1:], env, k)
         call = None
@@ -1450,7 +1454,7 @@ def ret_load(tr, v, env, node):
 
 def gen_load(repo):
     core = ast.parse(open(os.path.join(repo, "auditok", "core.py")).read())
-    fn = find_fn_pkg(repo, "_read_offline")[0]
+    fn, fmod = find_fn_pkg(repo, "_read_offline")
     if fn.args.kwarg is None or [a.arg for a in fn.args.args] != ["input", "skip", "max_read"]:
         raise TranslationError("_read_offline signature changed")
     f = ast.parse(ast.unparse(fn)).body[0]
@@ -1461,7 +1465,7 @@ def gen_load(repo):
     sp = Spec("read_offline_gen", [("skip", "optF"), ("max_read", "optF")], ret_load)
     sp.extra_params = ["(a : audio B)"]
     sp.ret_type = "result (list B)"
-    tr = LoadPure(f, sp, module=None)
+    tr = LoadPure(f, sp, module=fmod)
     out.append(tr.translate())
     out.append("End LoadGen.\n")
     return "\n".join(out)
